@@ -312,12 +312,84 @@ def run_dateline(case):
         return [('machinery', 'machinery', f'{type(e).__name__}: {e}\n{traceback.format_exc()}')]
 
 
+SESSION_TRACKS = {
+    # way-points in degrees: an oblique multi-segment track and one crossing the antimeridian
+    1: ([30.2, 31.7, 33.1, 35.9, 36.4], [10.3, 13.9, 17.2, 18.8, 24.6]),
+    2: ([-12.4, -10.9, -9.1, -8.8], [176.3, 178.9, -178.2, -174.7]),
+}
+SESSION_GRIDS = {1: 1.0, 2: 2.5}   # cell size in degrees
+
+
+def _session_gridder(g):
+    h = SESSION_GRIDS[g]
+    lat_lines = np.deg2rad(np.arange(-90.0, 90.0 + h / 2, h))
+    lon_lines = np.deg2rad(np.arange(-180.0, 180.0 + h / 2, h))
+    return gridder_mod().Gridder(lat_lines, lon_lines)
+
+
+def run_grid_session(hist):
+    """GridSession.tla behaviour in this (freshly forked) process -> the outputs of every gridding, as lists."""
+    warnings.simplefilter('ignore')
+    try:
+        arrays = {t: (np.deg2rad(np.array(la)), np.deg2rad(np.array(lo)), np.arange(1.0, len(la))) for t, (la, lo) in SESSION_TRACKS.items()}
+        gridders = {}
+        outs = []
+        for e in hist:
+            g, t = e['g'], e['t']
+            if g not in gridders:
+                gridders[g] = _session_gridder(g)
+            lats, lons, vals = arrays[t]
+            try:
+                r = gridders[g].grid_trajectory(lats, lons, integrated_variables=(vals.copy(),))
+                outs.append([np.asarray(x, float).tolist() for part in r for x in (part if isinstance(part, (list, tuple)) else [part]) if x is not None])
+            except Exception as ex:
+                outs.append(f'raised {type(ex).__name__}: {ex}')
+        return outs
+    except Exception as e:
+        import traceback
+
+        return {'machinery': f'{type(e).__name__}: {e}\n{traceback.format_exc()}'}
+
+
+def run_grid_sessions(ctx: Ctx, pid: str):
+    """Every sequence of 3 griddings over 2 grids x 2 tracks, each sequence in a fresh process; every answer must
+    equal the answer the same (grid, track) request gets as the only request of a fresh process."""
+    from .store_replay import fresh_map
+
+    tlc.check(ctx, 'grid/GridSession', 'grid/MC_GridSession.cfg', workers=2)
+    neg = tlc.run('grid/GridSession', 'grid/MC_GridSession.cfg', sub={'Design = "function_of_arguments"': 'Design = "memo_by_track"'}, workers=2)
+    if 'Invariant HistoryIndependent is violated' not in neg['out']:
+        raise MachineryError('negative control failed: memoising crossing points by track only should violate HistoryIndependent')
+    ctx.extra['negative_control_sessions'] = 'GridSession with Design=memo_by_track violates HistoryIndependent as expected'
+    sessions = tlc.check(ctx, 'grid/GridSession', 'grid/Gen_GridSession.cfg', workers=2)['emitted']
+    gridder_mod()
+    singles = [[{'g': g, 't': t}] for g in SESSION_GRIDS for t in SESSION_TRACKS]
+    res = fresh_map(run_grid_session, singles + sessions)
+    alone = {}
+    for s, r in zip(singles, res[: len(singles)]):
+        if isinstance(r, dict):
+            raise MachineryError('gridding session worker failed: ' + r['machinery'])
+        alone[(s[0]['g'], s[0]['t'])] = r[0]
+    for sess, r in zip(sessions, res[len(singles):]):
+        if isinstance(r, dict):
+            raise MachineryError('gridding session worker failed: ' + r['machinery'])
+        ctx.case_done(('grid-session', [(e['g'], e['t']) for e in sess]), nontrivial=True)
+        for k, (e, out) in enumerate(zip(sess, r)):
+            if out != alone[(e['g'], e['t'])]:
+                before = [(x['g'], x['t']) for x in sess[:k]]
+                what = out if isinstance(out, str) else f'{len(out[0])} pieces'
+                ref = alone[(e['g'], e['t'])]
+                ctx.violation('session:history-dependent', f'gridding track {e["t"]} on grid {e["g"]} ({SESSION_GRIDS[e["g"]]} degree cells) after {before} in the same process gives {what}; '
+                              f'as the only request of a process it gives {ref if isinstance(ref, str) else str(len(ref[0])) + " pieces"} (cells or amounts differ)', {'grid_session': sess})
+                break
+
+
 def run_grid(ctx: Ctx, pid: str):
     ctx.rule = (
         'segments = every ordered pair of points of the quarter-cell lattice (9x9 quick: 6 561; 13x13 thorough: 28 561) incl. points on lines/corners, '
         'axis-parallel, diagonal, westward/southward and zero-length segments, on the equatorial 0.01-degree grid (exact shares) and on 1- and 5-degree grids at '
         'latitudes up to 60 degrees (cells, order, conservation band); multi-segment trajectories with altitude/time axes and state variables by seeded TLC random walks; '
-        'all antimeridian dog-leg placements x start altitude/time cells (10 368); non-trivial = segment crosses at least one grid line or is degenerate'
+        'all antimeridian dog-leg placements x start altitude/time cells (10 368); every sequence of 3 griddings over 2 grids x 2 tracks in one fresh process each (GridSession.tla); non-trivial = segment crosses at least one grid line or is degenerate'
     )
     ctx.assumptions += [
         'shares below 1e-9 of the segment value and neighbouring pieces in the same cell are merged before comparison',
@@ -327,11 +399,15 @@ def run_grid(ctx: Ctx, pid: str):
     ]
     if ctx.replay:
         case = json.loads(Path(ctx.replay).read_text())['case']
+        if 'grid_session' in case:
+            run_grid_sessions(ctx, pid)
+            return
         res = run_segment((case['seg'], tuple(case['frame']))) if 'seg' in case else (run_chain((case['chain'], tuple(case['frame']))) if 'chain' in case else run_dateline(case['dateline']))
         for prop, key, desc in res:
             if prop == pid:
                 ctx.violation(key, desc, case)
         return
+    run_grid_sessions(ctx, pid)
     maxc = 8 if ctx.quick else 12
     sub = None if ctx.quick else {'MaxC = 8': 'MaxC = 12'}
     tlc.check(ctx, 'grid/GridSegment', 'grid/MC_GridSegment.cfg', sub=sub, timeout=1800)
